@@ -627,7 +627,7 @@ class CCFG:
             end = self._stmt(s.a[1], t)
             self._loops.pop()
             for n, lab in end:
-                self._edge(n, head, 'loop')
+                self._edge(n, head, lab or 'loop')
             return f + after
         if k == 'dowhile':
             head = self._new('stmt', E('loophead', line=s.line))
@@ -638,7 +638,7 @@ class CCFG:
             self._loops.pop()
             t, f = self._cond(s.a[0], end)
             for n, lab in t:
-                self._edge(n, head, 'loop')
+                self._edge(n, head, lab or 'loop')
             return f + after
         if k == 'for':
             fr = self._stmt(s.a[0], fr)
@@ -655,7 +655,7 @@ class CCFG:
             end = self._stmt(s.a[3], t)
             self._loops.pop()
             for n, lab in end:
-                self._edge(n, inc, 'loop')
+                self._edge(n, inc, lab or 'loop')
             if inc is not head:
                 self._edge(inc, head, 'loop')
             return f + after
